@@ -1,9 +1,29 @@
 import NmVerif.Proto
+import NmVerif.Arr
+import NmVerif.Index.Checked
+import NmVerif.Index.Transpose
 namespace NmVerif.Driver.C15
 open NmVerif NmVerif.Proto
 
-def handle : Handler := fun op _args =>
+def fmtView (v : IxView) : String := s!"ok shape={fmtNats v.dst} data={fmtInts v.provenance}"
+
+/-- reshape with full argument checking (Checked.shapeReshape), element map as view::reshape -/
+def reshapeChecked (src : Shape) (dst : List Int) : Option IxView :=
+  (Checked.shapeReshape src dst).map (fun t =>
+    ⟨src, t, fun d => some (computeIndices (computeOffset d (strides t)) src (strides src))⟩)
+
+def handle : Handler := fun op a =>
   match op with
+  | "v_reshape" => orBad do
+      let s ← a.nats "shape"; let t ← a.ints "to"
+      pure (match reshapeChecked s t with | some v => fmtView v | none => "nothing")
+  | "v_pipe_reshape_transpose" => orBad do
+      let s ← a.nats "shape"; let t ← a.ints "to"
+      pure (match reshapeChecked s t with
+        | none => "nothing"
+        | some v => match transposeView v.dst none with
+          | some w => fmtView (w.comp v)
+          | none => "nothing")
   | _ => none
 
 end NmVerif.Driver.C15
